@@ -210,7 +210,7 @@ pub fn run(ctx: &mut Ctx) {
     }
     let mut j = Judge { vectors: HashSet::new(), words: HashSet::new() };
     // preemption bounds (CHESS-style) and a per-scenario cap on the number of schedules
-    let (bound21, bound22, bound31, cap) = if ctx.quick() { (3u32, 2u32, 2u32, 3_000u64) } else { (99, 3, 3, 150_000) };
+    let (bound21, bound22, bound31, cap) = if ctx.quick() { (3u32, 2u32, 2u32, 3_000u64) } else { (99, 3, 3, 20_000) };
     ctx.note("preemption_bounds(2x1,2x2,3x1)/cap_per_scenario", json!([bound21, bound22, bound31, cap]));
 
     // ---- exhaustive: 2 threads x 1 call, every pair of calls, every text
@@ -237,7 +237,7 @@ pub fn run(ctx: &mut Ctx) {
     ctx.note_add("schedules:exhaustive-2x1", schedules);
 
     // ---- exhaustive: 2 threads x 2 calls and 3 threads x 1 call on sampled call tuples
-    let total = ctx.size(160, 6_000);
+    let total = ctx.size(160, 1_600);
     let mut schedules = 0;
     for n in ctx.cases("exhaustive-2x2", total) {
         let mut rng = ctx.begin("exhaustive-2x2", n);
@@ -246,7 +246,7 @@ pub fn run(ctx: &mut Ctx) {
         schedules += explore(ctx, &mut j, "exhaustive-2x2", n, t, &s, bound22, cap);
     }
     ctx.note_add("schedules:exhaustive-2x2", schedules);
-    let total = ctx.size(100, 4_000);
+    let total = ctx.size(100, 1_000);
     let mut schedules = 0;
     for n in ctx.cases("bounded-3x1", total) {
         let mut rng = ctx.begin("bounded-3x1", n);
